@@ -188,8 +188,8 @@ Print Assumptions C10_geom_value_partial.
    any Exp2 accurate to eta <= 1e-18 and any twapLog that is defined and delta-accurate (delta <= 1e-9) on the prices in force,
        |geom - 2^(+-M)| <= (5.1e-8 + 3 (delta + 1e-18)) * 2^(+-M) + 3e-18      (+ for quote = asset 0, - for asset 1).
    The Exp2 hypothesis holds for the model's own exp2 with eta = 1e-19: C10/BridgeC13.v [exp2_accurate] proves it from C13's
-   Exp2 theorem through [exp2_agree : exp2 e = Some r -> C13.Exp2.exp2 e = Ok r]; that file is built and checked on every run
-   but kept out of this theorem file's dependency cone (it pulls in Coq-Interval, which makes coqchk take > 30 min).
+   Exp2 theorem through [exp2_agree : exp2 e = Some r -> C13.Exp2.exp2 e = Ok r]; that file is compiled with the whole development
+   (./check --setup) but kept out of this theorem file's dependency cone (it pulls in Coq-Interval, which makes coqchk take > 30 min).
    _partial: delta-accuracy of the model's own twap_log (LogBase2 cut to 18 decimals: delta = 1e-18 + LogBase2's error)
    is C13's LogBase2 theorem, not available as a committed result when this was written. *)
 Theorem C10_geom_twap_true_mean_partial : forall (lg ex : Z -> option Z) (eta delta : R) (admissible : Z -> Prop),
@@ -213,8 +213,8 @@ Print Assumptions C10_geom_twap_true_mean_partial.
      exp2_accuracy_stmt      |Exp2 e - 2^e| <= 1e-19 * 2^e wherever exp2 answers
      twap_log_accuracy_stmt  twap_log is defined and within 2e-18 of log2 on every price in (0, 2^128 - 1]
    - both PROVED in C10/BridgeC13.v [accuracy_statements] from C13's theorems C13_exp2_relative_error and C13_log2_error through
-   bridges exp2_agree / log_base2_agree (C10's copies return what C13's models return); that file is built and checked on
-   every run but kept out of this file's dependency cone because Coq-Interval makes coqchk run > 30 min -
+   bridges exp2_agree / log_base2_agree (C10's copies return what C13's models return); that file is compiled with the whole
+   development (./check --setup) but kept out of this file's dependency cone because Coq-Interval makes coqchk run > 30 min -
    the geometric TWAP of every history, over every interval inside the window on which the recorded prices are positive and the
    accumulator difference is non-zero, is within 5.1e-8 relative + 3e-18 of two to the TRUE time-weighted mean of log2(price):
    "equals two to the time-weighted mean of their base-2 logarithms, to the stated precision" (SigFigRound keeps 8 digits). *)
